@@ -16,6 +16,7 @@ import (
 	"os"
 	"strconv"
 	"strings"
+	"time"
 
 	"mellium.im/xmlstream"
 	"mellium.im/xmpp"
@@ -119,6 +120,16 @@ func doCall(sess *xmpp.Session, kind, mark string, big bool) error {
 		return sess.EncodeElement(ctx, msgBody{ID: mark, Body: text}, xml.StartElement{Name: xml.Name{Local: "message"}, Attr: []xml.Attr{{Name: xml.Name{Local: "id"}, Value: mark}}})
 	case "sendiqres":
 		_, err := sess.SendIQ(ctx, stanza.IQ{ID: mark, Type: stanza.ResultIQ}.Wrap(body()))
+		return err
+	case "sendmsgerr":
+		// the message / presence variants transmit without waiting when the stanza is of type error
+		_, err := sess.SendMessage(ctx, stanza.Message{ID: mark, Type: stanza.ErrorMessage}.Wrap(body()))
+		return err
+	case "sendpreserr":
+		_, err := sess.SendPresenceElement(ctx, body(), stanza.Presence{ID: mark, Type: stanza.ErrorPresence})
+		return err
+	case "encodemsgerr":
+		_, err := sess.EncodeMessageElement(ctx, msgBody{ID: "inner", Body: text}, stanza.Message{ID: mark, Type: stanza.ErrorMessage})
 		return err
 	case "tw":
 		w := sess.TokenWriter()
@@ -293,6 +304,12 @@ func runSchedule(sc Scenario, choices []int) result {
 				Enabled: func() bool { return fed == i },
 				Do: func() {
 					fed++
+					if it == "deadline" {
+						// the close deadline passes (a deadline already in the past: no real time involved)
+						lg.Add(vt.Ev{"ev": "deadline"})
+						sess.SetCloseDeadline(time.Unix(1, 0))
+						return
+					}
 					lg.Add(vt.Ev{"ev": "peer", "item": it})
 					conn.FeedString(itemBytes(it, i))
 				}})
@@ -496,9 +513,11 @@ func main() {
 				procs = append(procs, "s")
 				progs = append(progs, vt.Ev{"p": "s", "calls": []string{"serve", "rx"}})
 			}
-			script := sc.Script
-			if script == nil {
-				script = []string{}
+			script := []string{}
+			for _, it := range sc.Script {
+				if it != "deadline" {
+					script = append(script, it)
+				}
 			}
 			t := tw.Write(vt.Ev{"procs": procs, "progs": progs, "script": script, "failclose": sc.FailClose}, lastRes.evs)
 			tw.Meta(vt.Ev{"scenario": sc, "choices": choices, "note": lastRes.note})
